@@ -101,9 +101,11 @@ def _gmm(w, mu, var, floor=None, **kw):
 def _cmp_gmm(c, A, B, a, b, tags, what, sc, rt=1e-8):
     wa, ma, va = np.asarray(A.weights, float), np.asarray(A.means, float), np.asarray(A.variances, float)
     wb, mb, vb = np.asarray(B.weights, float), np.asarray(B.means, float), np.asarray(B.variances, float)
+    # all comparisons are made in the original units (the transformed result is mapped back), so that the tolerance
+    # `rtol * max(1, |want|)` cannot become vacuous for quantities that are tiny or huge in the new units
     ok = c.close(wb, wa, "weights_invariant", f"{what}: weights on transformed features vs original", tags, rtol=rt)
-    ok &= c.close(mb, ma * a + b, "means_equivariant", f"{what}: means on transformed features vs a*mu+b", tags, rtol=rt, scale=np.abs(a) * sc + np.abs(b) * 1e-6, kappa=1e4)
-    ok &= c.close(vb, va * a * a, "variances_equivariant", f"{what}: variances on transformed features vs a^2*var", tags, rtol=10 * rt, scale=a * a * sc * sc, kappa=1e4)
+    ok &= c.close((mb - b) / a, ma, "means_equivariant", f"{what}: means on transformed features, mapped back, vs original", tags, rtol=rt, scale=sc + np.abs(b / a), kappa=256)  # the transformed inputs themselves are quantised at eps*|b/a| in original units
+    ok &= c.close(vb / (a * a), va, "variances_equivariant", f"{what}: variances on transformed features / a^2 vs original", tags, rtol=10 * rt, scale=sc * sc, kappa=1e4)
     return ok
 
 
@@ -151,7 +153,7 @@ def _gmm_case(case, c, s, o):
         if is_map and sw[1]:
             # classification of known finding K1: both sides individually equal the formula with the prior mean unsquared
             va, vb = np.asarray(A.variances, float), np.asarray(B.variances, float)
-            if not np.allclose(vb, va * a * a, rtol=1e-7, atol=1e-9 * float((a * a).max()) * sc * sc):
+            if not np.allclose(vb / (a * a), va, rtol=1e-7, atol=1e-9 * sc * sc):
                 def defective(P, data):
                     prior = (np.asarray(P.ubm.weights, float), np.asarray(P.ubm.means, float), np.asarray(P.ubm.variances, float))
                     stt = og.stats(data, *prior)
@@ -162,7 +164,7 @@ def _gmm_case(case, c, s, o):
                         dict(matches_formula="prior_mean_unsquared") if k1 else tags)
                 break
             c.close(np.asarray(B.weights, float), np.asarray(A.weights, float), "weights_invariant", "MAP weights", tags, rtol=rt)
-            c.close(np.asarray(B.means, float), np.asarray(A.means, float) * a + b, "means_equivariant", "MAP means", tags, rtol=rt, scale=np.abs(a) * sc + np.abs(b) * 1e-6, kappa=1e4)
+            c.close((np.asarray(B.means, float) - b) / a, np.asarray(A.means, float), "means_equivariant", "MAP means mapped back", tags, rtol=rt, scale=sc + np.abs(b / a), kappa=256)
         else:
             if not _cmp_gmm(c, A, B, a, b, tags, f"after {k} iterations", sc, rt):
                 break
@@ -190,11 +192,15 @@ def _kmeans_case(case, c, s, o):
     c.transitions += 2
     tags = dict(fam="kmeans", lin=KLIN[case["lin"]][0])
     sc = float(np.abs(L).max()) * (float(np.abs(X).max()) + 1.0)
-    c.close(np.asarray(B.centroids_, float), T(np.asarray(A.centroids_, float)), "centroids_equivariant",
-            f"centroids of the transformed data vs transformed centroids (threshold {case['thr']})", tags, rtol=1e-9, scale=sc + np.abs(sh).max() * 1e-6, kappa=1e4)
+    Linv = np.linalg.inv(L)
+    back = (np.asarray(B.centroids_, float) - sh) @ Linv.T
+    sc0 = float(np.abs(X).max()) + 1.0
+    c.close(back, np.asarray(A.centroids_, float), "centroids_equivariant",
+            f"centroids of the transformed data, mapped back, vs original centroids (threshold {case['thr']})", tags, rtol=1e-9,
+            scale=sc0 + float(np.abs(sh @ Linv.T).max()), kappa=256)  # input quantisation: eps * |shift| in original units
     det = abs(float(np.linalg.det(L)))
-    c.close(float(B.average_min_distance), float(A.average_min_distance) * det, "criterion_scales", "reported criterion scales with the squared length scale", tags, rtol=1e-8,
-            scale=det * sc * 1e-3)
+    c.close(float(B.average_min_distance) / det, float(A.average_min_distance), "criterion_scales", "reported criterion scales with the squared length scale", tags, rtol=1e-8,
+            scale=sc0 * sc0 + float(np.abs(sh @ Linv.T).max()) * sc0, kappa=256)
     return float(np.abs(np.asarray(A.centroids_) - C0).max()) > 1e-9
 
 
@@ -276,7 +282,7 @@ def _fa_case(case, c, s, o):
     xa, xb = np.asarray(A.estimate_x(sa[2:4]), float), np.asarray(B.estimate_x(sb[2:4]), float)
     c.close(xb, xa, "factors_invariant", "channel factor x of a probe", tags, rtol=1e-7, scale=R, kappa=4096)
     uxa, uxb = np.asarray(A.estimate_ux(sa[2:4]), float), np.asarray(B.estimate_ux(sb[2:4]), float)
-    c.close(uxb, uxa * arow, "offset_follows_features", "channel offset U x follows the feature scale", tags, rtol=1e-7, scale=np.abs(arow) * (float(np.abs(uxa).max()) + 1e-9) * R, kappa=4096)
+    c.close(uxb / arow, uxa, "offset_follows_features", "channel offset U x (mapped back) follows the feature scale", tags, rtol=1e-7, scale=(float(np.abs(uxa).max()) + 1e-9) * R, kappa=4096)
     sca, scb = float(A.score(ea, copy.deepcopy(sa[2:4]))), float(B.score(eb, copy.deepcopy(sb[2:4])))
     c.close(scb, sca, "score_invariant", f"{kind} score on transformed features vs original", tags, rtol=1e-7, scale=(abs(sca) + 1e-6) * R, kappa=4096)
     c.transitions += 6
@@ -287,9 +293,9 @@ def _fa_case(case, c, s, o):
     c.transitions += 2
     for nm in ("U", "V", "D") if kind == "jfa" else ("U",):
         va, vb = np.asarray(getattr(A, nm), float), np.asarray(getattr(B, nm), float)
-        want = va * (arow[:, None] if va.ndim == 2 else arow)
-        c.close(vb, want, "subspace_equivariant", f"trained {nm} on transformed features vs row-scaled original", tags, rtol=1e-6,
-                scale=(np.abs(arow)[:, None] if va.ndim == 2 else np.abs(arow)) * (float(np.abs(va).max()) + 1e-9) * R, kappa=1e5)
+        back = vb / (arow[:, None] if va.ndim == 2 else arow)
+        c.close(back, va, "subspace_equivariant", f"trained {nm} on transformed features (rows mapped back) vs original", tags, rtol=1e-6,
+                scale=(float(np.abs(va).max()) + 1e-9) * R, kappa=1e5)
     return True
 
 
@@ -304,7 +310,7 @@ def _ivector_case(case, c, s, o):
     t = 1 + cfg % 2
 
     def mk(u, ar):
-        m = IVectorMachine(u, dim_t=t, update_sigma=bool(cfg // 2), variance_floor=1e-12)
+        m = IVectorMachine(u, dim_t=t, update_sigma=bool(cfg // 2), variance_floor=1e-12 * float((ar * ar).min()) * s * s)  # the floor travels with the units
         m.dim_c, m.dim_d = C, D
         m.T = (c11._pattern((C, D, t), cfg, s) + 0.25 * s) * ar[None, :, None]
         m.sigma = (np.abs(c11._pattern((C, D), cfg + 1, 1.0)) + 0.25) * s * s * (ar * ar)[None, :]
@@ -336,10 +342,10 @@ def _ivector_case(case, c, s, o):
             ivmod.m_step(B, ivmod.e_step(B, sb))
             c.transitions += 2
             Ta, Tb = np.asarray(A.T, float), np.asarray(B.T, float)
-            c.close(Tb, Ta * a[None, :, None], "T_equivariant", f"T after {it + 1} EM steps on transformed features vs row-scaled original", tags, rtol=1e-6,
-                    scale=np.abs(a)[None, :, None] * (float(np.abs(Ta).max()) + 1e-9), kappa=1e7)
-            c.close(np.asarray(B.sigma, float), np.asarray(A.sigma, float) * (a * a)[None, :], "sigma_equivariant", f"sigma after {it + 1} EM steps", tags, rtol=1e-6,
-                    scale=(a * a)[None, :] * float(np.abs(np.asarray(A.sigma)).max()), kappa=1e7)
+            c.close(Tb / a[None, :, None], Ta, "T_equivariant", f"T after {it + 1} EM steps on transformed features (rows mapped back) vs original", tags, rtol=1e-6,
+                    scale=float(np.abs(Ta).max()) + 1e-9, kappa=1e7)
+            c.close(np.asarray(B.sigma, float) / (a * a)[None, :], np.asarray(A.sigma, float), "sigma_equivariant", f"sigma after {it + 1} EM steps (mapped back)", tags, rtol=1e-6,
+                    scale=float(np.abs(np.asarray(A.sigma)).max()), kappa=1e7)
     else:
         c.count("ivector_em_functions_absent")
     return True
